@@ -215,15 +215,28 @@ GENERATORS = [_registry]
 
 def runtime_crosscheck(ctx):
     """Thorough tier: the same facts on the imported module (exhaustive over the registry, every identifier and letter case)."""
-    if ctx['tier'] != 'thorough':
-        return {'name': 'runtime registry cross-check', 'ok': True, 'skipped': 'thorough tier only'}
     from replaylib.native import run_native
     code = '''
+import tempfile, shutil
 from cherab.core.atomic import elements as E
 from cherab.core.atomic.elements import Element, Isotope, lookup_element, lookup_isotope
 bad = []; n = 0
 objs = [getattr(E, k) for k in dir(E)]
 els = [o for o in objs if type(o) is Element]; iso = [o for o in objs if type(o) is Isotope]
+# the registry must answer the same after the rate repository was used with isotopes and elements (its key helpers take both)
+from cherab.openadas import repository as R
+from cherab.openadas.repository.utility import valid_charge, encode_transition
+d = tempfile.mkdtemp(prefix="verif_c19_")
+try:
+    for sp in (E.deuterium, E.tritium, E.helium3, E.hydrogen, E.carbon, E.protium):
+        R.add_wavelength(sp, 0, (3, 2), 656.0, repository_path=d); valid_charge(sp, 1); n += 1
+        if abs(R.get_wavelength(sp, 0, (3, 2), repository_path=d) - 656.0) > 0: bad.append(("wavelength", sp.name))
+    if encode_transition((3, 2)) != "3 -> 2" or encode_transition(("3P4.0", "2S1.0")) != "3p4.0 -> 2s1.0": bad.append(("encode_transition",))
+    for sp in els + iso:
+        z = sp.atomic_number; n += 1
+        if valid_charge(sp, z) is not True or valid_charge(sp, z + 1) is not False: bad.append(("valid_charge", sp.name))
+finally:
+    shutil.rmtree(d, ignore_errors=True)
 for e in els:
     for ident in (e.name, e.symbol, str(e.atomic_number), e.name.upper(), e.symbol.upper(), e.symbol.lower(), e):
         n += 1
@@ -235,16 +248,35 @@ for i in iso:
     n += 1
     if lookup_isotope(i.element, i.mass_number) is not i: bad.append(("isotope2", i.name))
 allsp = els + iso
-for a in allsp:
-    for b in allsp:
+import random
+rnd = random.Random(19)
+pairs = [(a, b) for a in allsp for b in allsp] if %r else [(a, a) for a in allsp] + [(rnd.choice(allsp), rnd.choice(allsp)) for _ in range(4000)] + \
+    [(i, i.element) for i in iso] + [(i.element, i) for i in iso]
+for a, b in pairs:
+    if True:
         n += 1
         if (a == b) != (a is b): bad.append(("eq", a.name, b.name))
         if a == b and hash(a) != hash(b): bad.append(("hash", a.name, b.name))
 print(json.dumps({"cases": n, "elements": len(els), "isotopes": len(iso), "bad": bad[:10]}))
-'''
+''' % (ctx['tier'] == 'thorough')
     out = run_native(ctx, code)
-    return {'name': 'runtime registry cross-check (exhaustive over the imported registry; bounded tier, not counted as proved)',
-            'ok': bool(out) and out.get('bad') == [], 'detail': out, 'bound': 'all objects x all identifier spellings'}
+    return {'name': 'runtime registry cross-check after repository use (bounded tier, not counted as proved)',
+            'ok': bool(out) and out.get('bad') == [], 'detail': out, 'covers': ['registry'],
+            'bound': 'all objects x all identifier spellings; equality/hash on %s' % ('all pairs' if ctx['tier'] == 'thorough' else 'the diagonal, isotope/element pairs and 4000 random pairs')}
 
 
 BOUNDED = [runtime_crosscheck]
+
+
+# ------------------------------------------------------------------------------------------------ repository key helpers (utility.py)
+_register_registry = register
+
+
+def register(reg):
+    """plus the two key helpers of the rate repository that C19's lookups by (element, charge, transition) go through"""
+    _register_registry(reg)
+    U = "cherab/openadas/repository/utility.py"
+    reg.contract(U, "encode_transition", PROP, sorts={"transition": ("tuple", ["str", "str"])},
+        ensures=[("lowercased_levels", "result == concat(str_lower(transition[0]), ' -> ', str_lower(transition[1]))")], modifies=[])
+    reg.contract(U, "valid_charge", PROP, sorts={"element": "ref:Element!", "charge": "int"},
+        ensures=["iff(result, charge <= element.atomic_number)"], modifies=[])
